@@ -18,6 +18,12 @@ def sh(cmd, **kw):
     return p.returncode, p.stdout.decode("utf-8", "replace")
 
 
+def write_table(rows):
+    (ROOT / "seeded" / "RECHECK.md").write_text(
+        "# Re-check of every stored seeded change against the current checks and /repo HEAD\n\n| change | verdict | clause |\n|---|---|---|\n"
+        + "\n".join(f"| {a} | {b} | {c.replace('|', '/')} |" for a, b, c in rows) + "\n")
+
+
 def main():
     only = set(sys.argv[1:])
     rows = []
@@ -48,12 +54,12 @@ def main():
                     clause = (json.loads(Path(m.group(1)).read_text()).get("violated_clause") or "")[:120]
         rows.append((d.name, verdict, clause))
         print(d.name, verdict, clause, flush=True)
+        if not only:
+            write_table(rows)
     sh(["git", "-C", "/repo", "worktree", "remove", "--force", SCR])
     sh(["git", "-C", "/repo", "worktree", "prune"])
     if not only:
-        (ROOT / "seeded" / "RECHECK.md").write_text(
-            "# Re-check of every stored seeded change against the current checks and /repo HEAD\n\n| change | verdict | clause |\n|---|---|---|\n"
-            + "\n".join(f"| {a} | {b} | {c.replace('|', '/')} |" for a, b, c in rows) + "\n")
+        write_table(rows)
     bad = [r for r in rows if r[1] in ("missed",)]
     print(f"{len(rows)} changes; missed: {[r[0] for r in bad]}")
 
